@@ -101,7 +101,17 @@ type Response struct {
 
 	// If set a hijackWriter, hertz will skip the default header/body writer process.
 	hijackWriter network.ExtWriter
+
+	// closeProbe reports whether the connection is going to be closed after this response
+	closeProbe func() bool
 }
+
+// SetCloseProbe is used by the server to let writers that send the header on their own
+// (hijack writers) find out that the connection is closed after this response.
+func (resp *Response) SetCloseProbe(f func() bool) { resp.closeProbe = f }
+
+// MustClose reports whether the server closes the connection after this response.
+func (resp *Response) MustClose() bool { return resp.closeProbe != nil && resp.closeProbe() }
 
 func (resp *Response) GetHijackWriter() network.ExtWriter {
 	return resp.hijackWriter
